@@ -297,7 +297,7 @@ func ruleFlushAck(r *Report) {
 			r.Check(ok, rule, "Store.outstandingWork/"+name, ow.Pos(), "the component's outstanding work counts", "the 'anything to flush?' test ignores "+name+": a batch that only touches that component (e.g. removals, which change the index but not the primary) is acknowledged by Flush without being written — after a crash the removed key is back")
 		}
 	}
-	r.Min(rule, 4)
+	r.Min(rule, 3) // at least one successful return of Flush and the two components of outstandingWork
 }
 
 // R-HEADER-RENAMES: who may rename a file onto a header path: writeHeader (temp
@@ -349,6 +349,26 @@ func rulePoolReaders(r *Report) {
 		for _, fn := range moduleFuncs(r.E) {
 			cur, next := 0, 0
 			eachInstr(fn, func(in ssa.Instruction) {
+				if cl, isCall := in.(*ssa.Call); isCall {
+					// a lookup method of the pool type called on the pool field's value
+					if f := cl.Call.StaticCallee(); f != nil && f.Blocks != nil && len(cl.Call.Args) > 0 && len(f.Params) > 0 {
+						looksUp := false
+						eachInstr(f, func(x ssa.Instruction) {
+							if lk, ok := x.(*ssa.Lookup); ok && derives(lk.X, flowOpts{}, func(v ssa.Value) bool { return v == ssa.Value(f.Params[0]) }) {
+								looksUp = true
+							}
+						})
+						if looksUp {
+							switch fieldOfLoad(cl.Call.Args[0]) {
+							case c.typ + ".curPool":
+								cur++
+							case c.typ + ".nextPool":
+								next++
+							}
+						}
+					}
+					return
+				}
 				lk, ok := in.(*ssa.Lookup)
 				if !ok {
 					return
